@@ -1170,7 +1170,7 @@ def make_unit(r, prog, g, uid, kind):
     elif shape == "closure":
         src = "func %s() {\n\tk := 0\n\tf := func() {\n\t\tk++\n%s\n\t}\n\tf()\n\tif k != 1 {\n\t\tpanic(\"closure\")\n\t}\n}" % (name, go)
     elif shape == "generic":
-        src = "func g%s[T any](x T) T {\n%s\n\treturn x\n}\n\nfunc %s() { g%s(%d) }" % (uid, go, name, uid, r.randint(0, 9))
+        src = "func g%s[T any](gx T) T {\n%s\n\treturn gx\n}\n\nfunc %s() { g%s(%d) }" % (uid, go, name, uid, r.randint(0, 9))
     else:
         src = "func %s() {\n\tdefer func() {\n%s\n\t}()\n}" % (name, go)
     return src, drv, exp, sig + "@" + shape
@@ -1345,6 +1345,9 @@ def g(*a):
 def h(a):
     _log("C c19probe.h 1")
     return ascii((a,))
+def own(a):
+    _log("C c19probe.own 1")
+    return ascii((a,))
 def tn(*a):
     _log("C c19probe.tn %d" % len(a))
     return ascii(tuple(type(x).__name__ for x in a))
@@ -1384,11 +1387,12 @@ import (
 
 const LLGoPackage = "py.c19probe"
 
-//go:linkname H py.h
-func H(a *py.Object) *py.Object
+//go:linkname Own py.own
+func Own(a *py.Object) *py.Object
 
-// HH is ordinary Go code inside a binding package that uses the package's own Python name.
-func HH(a *py.Object) *py.Object { return H(a) }
+// HH is ordinary Go code inside a binding package that uses the package's own Python name
+// (a name no other package of the program loads).
+func HH(a *py.Object) *py.Object { return Own(a) }
 '''
     main = '''package main
 
@@ -1451,8 +1455,8 @@ func main() {
 
 
 def probe_typecache_program():
-    """Separate fixed program (its failure mode is a build failure or a corrupted layout): a narrow integer converted by
-    py.List / py.Tuple, followed in the same package by code that needs the LLVM type of that integer kind again."""
+    """Separate fixed program: narrow integers converted by py.List, followed in the same package by code whose type
+    descriptors are built from those integer kinds; the runtime then reads the descriptors (interface comparison, hashing)."""
     main = '''package main
 
 import (
@@ -1470,6 +1474,11 @@ type rec struct {
 	f int32
 }
 
+type small struct {
+	a uint8
+	b uint8
+}
+
 var (
 	g8  uint8  = 200
 	g16 uint16 = 60000
@@ -1479,22 +1488,30 @@ var (
 	h32 int32  = -70000
 )
 
+func b2s(b bool) string {
+	if b {
+		return "T"
+	}
+	return "F"
+}
+
 func p5() {
 	l := py.List(g8, g16, g32, h8, h16, h32)
-	r := rec{1, 2, 3, -4, -5, -6}
-	var x any = r // needs a type descriptor built from uint8/uint16/uint32/... after the conversion above
-	y := x.(rec)
-	var z any = y
-	var s any = "boxed"
-	eq := "ne"
-	if x == z {
-		eq = "eq"
-	}
-	m := map[any]int{} // hashing an interface key: the runtime reads the descriptor of rec (Kind, Size, Equal, fields)
+	var x any = rec{1, 2, 3, -4, -5, -6}
+	var z any = rec{1, 2, 3, -4, -5, -6}
+	var w any = rec{1, 2, 3, -4, -5, -7}
+	var s1 any = small{1, 2}
+	var s2 any = small{1, 3}
+	var u1 any = uint32(7)
+	var u2 any = uint32(8)
+	arr := [4]uint16{1, 2, 3, 4}
+	var a1 any = arr
+	arr[3] = 9
+	var a2 any = arr
+	m := map[any]int{}
 	m[x] = 1
 	m[z] += 2
-	eq += rb.I64(int64(m[x]))
-	rb.R("p5", rb.DAscii(l)+" "+rb.I64(int64(y.a)+int64(y.b)+int64(y.c)+int64(y.d)+int64(y.e)+int64(y.f))+" "+s.(string)+" "+eq)
+	rb.R("p5", rb.DAscii(l)+" "+b2s(x == z)+b2s(x == w)+b2s(s1 == s2)+b2s(u1 == u2)+b2s(a1 == a2)+" "+rb.I64(int64(m[x])))
 }
 
 func main() {
@@ -1504,5 +1521,5 @@ func main() {
 '''
     files = {"go.mod": "module c19m\n\ngo 1.24\n\nrequire github.com/goplus/lib v0.3.1\n", "rb/rb.go": RB_GO,
              "pylib/sitecustomize.py": SITECUSTOMIZE, "main.go": main}
-    exp = {"p5": dump(ascii([200, 60000, 4000000000, -5, -300, -70000])) + " -9 boxed eq3"}
+    exp = {"p5": dump(ascii([200, 60000, 4000000000, -5, -300, -70000])) + " TFFFF 3"}
     return {"files": files, "expected": exp}
